@@ -34,6 +34,7 @@ var nearSteps = []string{`[*]`, `.*`, `[v]`, `[true]`, `[null]`, `[-1]`, `[1.5]`
 // view re-interprets them as variable names: they get the twin oracle in (a).
 var evalRoots = []string{"v", "w", "for", "if", "true", "null"}
 var parseRoots = []string{"v", "for", "if", "true", "null"}
+var parseRootsLong = []string{"v", "for", "true"} // quick tier, 3-step sequences
 
 func isKeywordRoot(r string) bool { return r == "true" || r == "false" || r == "null" }
 
@@ -166,9 +167,18 @@ func genEval(n int, emit func(engine.Case) bool) bool {
 
 func genParse(n int, thorough bool, emit func(engine.Case) bool) bool {
 	alphabet := append(append([]string{}, baseSteps...), nearSteps...)
+	// The parenthesised layout starts with "(", which the stand-alone grammar
+	// never accepts: one or two steps are enough to show that (quick).
 	rends := rendsFor(n, []int{rendPlain, rendParen, rendNL, rendSpaced})
+	if n > 2 && !thorough {
+		rends = []int{rendPlain, rendNL, rendSpaced}
+	}
+	roots := parseRoots
+	if n > 2 && !thorough {
+		roots = parseRootsLong
+	}
 	return seqs(alphabet, n, func(steps []string) bool {
-		for _, root := range parseRoots {
+		for _, root := range roots {
 			for _, rend := range rends {
 				if !emit(mkParse(root, steps, rend)) {
 					return false
@@ -596,8 +606,10 @@ func judgeParse(d Data) engine.Outcome {
 			if diff := travDiff(jt, native); diff != "" {
 				return engine.Fail("c20.json-traversal-differs", "JSON string %q (variant %d) gives %s but the native expression gives %s (%s)", text, variant, travString(jt), travString(native), diff)
 			}
-			if jk, nk := hcl.ExprAsKeyword(je), hcl.ExprAsKeyword(e); jk != nk {
-				return engine.Fail("c20.json-keyword-differs", "JSON string %q: ExprAsKeyword = %q, native %q", text, jk, nk)
+			if len(native) == 1 {
+				if jk, nk := hcl.ExprAsKeyword(je), hcl.ExprAsKeyword(e); jk != nk {
+					return engine.Fail("c20.json-keyword-differs", "JSON string %q: ExprAsKeyword = %q, native %q", text, jk, nk)
+				}
 			}
 			sig += "J"
 		}
